@@ -1251,6 +1251,10 @@ def cumreduction(
     assert isinstance(axis, Integral)
     axis = validate_axis(axis, x.ndim)
 
+    if 0 in x.chunks[axis] and x.shape[axis] > 0:
+        # an empty block has no last element to carry on to the next block
+        x = x.rechunk({axis: tuple(c for c in x.chunks[axis] if c != 0)})
+
     use_dtype = False
     try:
         func_params = inspect.signature(func).parameters
